@@ -413,6 +413,9 @@ def c15_admit_oracle(line, res):
                 return "step %s: query refused although subnet %s holds %d tokens (cost %d)" % (st, k, tok[k], qcost)
         elif o in ("REFUSED", "503", "SCLOSED", "CLOSED"):
             return "step %s: refusal signalled as %s, the property says %s" % (st, o, refusal)
+        elif tok[k] < qcost and kind in ("uq", "tq", "hq") and (o.isdigit() or o.startswith("RCODE") or o == "EMPTY"):
+            return "step %s: subnet %s holds %d tokens (cost %d) and the query was answered %s, the property says %s" % (
+                st, k, tok[k], qcost, o, refusal)
         else:
             return None
     return None
